@@ -210,19 +210,28 @@ def replay_aliasing(concepts, case):
                 r = d.copy()
             elif other is not None:
                 r = getattr(d, name)(other) if name.startswith('__') else getattr(d, name)(other, bool(case.get('ignore')))
+                if OPS[name][2] == 'binary':
+                    r = d
             else:
                 r = getattr(d, OPS[name][0])(*args)
         except (KeyError, ValueError):
-            return d, None
-        return d, r
-    d, r = build()
+            return d, None, other
+        return d, r, other
+    d, r, o = build()
     if r is None:
         return fails
-    for side in ('source', 'result'):
-        base = (O, P) if side == 'source' else (list(r.objects), list(r.properties))
+    pairs = [('source', 'result'), ('result', 'source')]
+    if o is not None:
+        pairs += [('argument', 'result'), ('result', 'argument')]
+        if r is d:       # in-place operation: the receiver is the result
+            pairs = [('argument', 'result'), ('result', 'argument')]
+    for side, watched in pairs:
+        objs0 = {'source': d, 'result': r, 'argument': o}[side]
+        base = (list(objs0.objects), list(objs0.properties))
         for fname, fa in followups(base[0], base[1], ['n', 'm'], ['q', 'r']):
-            d1, r1 = build()
-            tgt, oth = (d1, r1) if side == 'source' else (r1, d1)
+            d1, r1, o1 = build()
+            tgt = {'source': d1, 'result': r1, 'argument': o1}[side]
+            oth = {'source': d1, 'result': r1, 'argument': o1}[watched]
             before = (oth.objects, oth.properties, oth.bools)
             try:
                 if fname == 'setitem':
@@ -234,7 +243,7 @@ def replay_aliasing(concepts, case):
             after = (oth.objects, oth.properties, oth.bools)
             if before != after:
                 fails.append(f'{name}{args!r} on {O} x {P}: editing the {side} afterwards ({fname}{fa!r}) changed the '
-                             f'other side from {before} to {after}')
+                             f'{watched} from {before} to {after}')
             fresh = D(*after)
             if not (oth == fresh):
                 fails.append(f'{name}{args!r}: after editing the {side} ({fname}{fa!r}) the other side differs from a '
@@ -348,6 +357,8 @@ def replay_edit(concepts, case):
     if kind == 'binary' and method.startswith('__') and raised is None and rv is not d:
         fails.append(f'{method} did not return self')
     fails += compare_real(concepts, d, d, exp, raised, rv if kind == 'edit' else None, case)
+    if kind == 'binary' and not fails:
+        fails += replay_aliasing(concepts, case)
     if other is not None and (other.objects, other.properties, other.bools) != tuple(
             x if i < 2 else x for i, x in enumerate((tuple(O2), tuple(P2), triple(O2, P2, tc2)[2]))):
         fails.append(f'{name} changed its argument')
@@ -365,6 +376,8 @@ def compare_real(concepts, result, source, exp, raised, rv, case, derived=False)
         got = (list(source.objects), list(source.properties), source.bools)
         if got != want:
             fails.append(f'{what}: rejected call changed the definition to {got}')
+        if not fails:     # unchanged also means: still behaves like a fresh definition with that triple
+            fails += residue_probes(concepts, source, case, what + ' (after the rejected call)')
         return fails
     if reject:
         fails.append(f'{what}: no exception but the model rejects the call')
